@@ -124,8 +124,8 @@ def rerun(w):
 
 # thorough tier: property-level twins run as an exploration on top of the proofs (never counted as proved)
 PROP_TWINS = {
-    'C01': ['select_all'],
-    'C02': ['select_all'],
+    'C01': ['select_all', 'select_big'],
+    'C02': ['select_all', 'select_big'],
     'C03': ['ef_big'],
     'C04': ['ef_dict', 'ef_big'],
     'C08': ['vfilter', 'vfunc'],
